@@ -388,7 +388,13 @@ start:
 
 			switch v := instr.(type) {
 			case *ir.Convert:
-				s.set(v, s.get(v.X))
+				if b, ok := v.X.Type().Underlying().(*types.Basic); ok && b.Kind() == types.Uintptr {
+					// Any integer, including zero, can be converted to an
+					// unsafe.Pointer.
+					s.setOuter(v, MaybeNil)
+				} else {
+					s.set(v, s.get(v.X))
+				}
 			case *ir.SliceToArrayPointer:
 				// Go does not currently allow (*T)(s) where T is a type
 				// parameter with a type set consisting of array types, but it
